@@ -212,7 +212,8 @@ PROPS = {
                       "exactly or to the minute). Tie: fixed offsets and random synthetic zones (0-6 transitions, changes from one "
                       "second to more than a day, spacing from seconds to years) served by a provider written in the harness; "
                       "instants and readings concentrated on transitions; getters, PlainDateTime/PlainDate -> ZonedDateTime, "
-                      "from_partial, from_str with offsets/Z x 4 disambiguations x 4 offset options. The implementation is compared "
+                      "from_partial, from_str with offsets/Z x 4 disambiguations x 4 offset options, RelativeTo::try_from_str (zoned "
+                      "strings with offsets/Z, plain strings). The implementation is compared "
                       "both with the as-coded model and with the specification function Spec/Zone.lean (spec_ops).",
         "level_note": "Trusted: Lean kernel (+propext, Classical.choice, Quot.sound); hand model of timezone.rs / "
                       "zoneddatetime.rs (interpret_isodatetime_offset, disambiguate, start of day); the synthetic provider (harness) "
